@@ -1195,7 +1195,7 @@ package scipipe
 // ---------------------------------------------------------------------------
 
 //@ define wfInPorts(m map[string]*InPort) bool = m != nil && (forall k string :: k in m ==> m[k] != nil && m[k].Chan != nil) && (forall k1 string, k2 string :: k1 in m && k2 in m && k1 != k2 ==> m[k1].Chan != m[k2].Chan)
-//@ define isInChan(m map[string]*InPort, c chan *FileIP) bool = exists k string :: k in m && m[k].Chan == c
+//@ define isInChan(m map[string]*InPort, c ref) bool = exists k string :: k in m && m[k].Chan == c
 
 //@ func (*BaseProcess).receiveOnInPorts(p) (ips, inPortsOpen)
 //@   props C04 C08
@@ -1207,7 +1207,7 @@ package scipipe
 //@   ensures items-in-arrival-order: forall k string :: k in p.inPorts && old(chanRecvN(p.inPorts[k].Chan)) < chanTotal(p.inPorts[k].Chan) ==> k in ips && ips[k] == chanInAt(p.inPorts[k].Chan, old(chanRecvN(p.inPorts[k].Chan)))
 //@   ensures only-ports: forall k string :: k in ips ==> k in p.inPorts
 //@   ensures valid-items: forall k string :: k in ips ==> validIP(ips[k])
-//@   ensures other-channels-untouched: forall c chan *FileIP :: !fresh(c) && !isInChan(p.inPorts, c) ==> chanRecvN(c) == old(chanRecvN(c)) && chanRecvA(c) == old(chanRecvA(c))
+//@   ensures other-channels-untouched: forall c ref :: !fresh(c) && !isInChan(p.inPorts, c) ==> chanRecvN(c) == old(chanRecvN(c)) && chanRecvA(c) == old(chanRecvA(c))
 //@   ensures nothing-sent: forall c ref :: !fresh(c) ==> chanSentN(c) == old(chanSentN(c)) && chanClosed(c) == old(chanClosed(c))
 //@   loop 0 invariant fresh: fresh(ips) && ips != nil
 //@   loop 0 invariant vis: forall k string :: $visited[k] ==> k in p.inPorts
@@ -1217,11 +1217,11 @@ package scipipe
 //@   loop 0 invariant items: forall k string :: $visited[k] && old(chanRecvN(p.inPorts[k].Chan)) < chanTotal(p.inPorts[k].Chan) ==> k in ips && ips[k] == chanInAt(p.inPorts[k].Chan, old(chanRecvN(p.inPorts[k].Chan)))
 //@   loop 0 invariant only-ports: forall k string :: k in ips ==> $visited[k]
 //@   loop 0 invariant valid-items: forall k string :: k in ips ==> validIP(ips[k])
-//@   loop 0 invariant others: forall c chan *FileIP :: !fresh(c) && !isInChan(p.inPorts, c) ==> chanRecvN(c) == old(chanRecvN(c)) && chanRecvA(c) == old(chanRecvA(c))
+//@   loop 0 invariant others: forall c ref :: !fresh(c) && !isInChan(p.inPorts, c) ==> chanRecvN(c) == old(chanRecvN(c)) && chanRecvA(c) == old(chanRecvA(c))
 //@   loop 0 invariant nothing-sent: forall c ref :: !fresh(c) ==> chanSentN(c) == old(chanSentN(c)) && chanClosed(c) == old(chanClosed(c))
 
 //@ define wfInParamPorts(m map[string]*InParamPort) bool = m != nil && (forall k string :: k in m ==> m[k] != nil && m[k].Chan != nil) && (forall k1 string, k2 string :: k1 in m && k2 in m && k1 != k2 ==> m[k1].Chan != m[k2].Chan)
-//@ define isInParamChan(m map[string]*InParamPort, c chan string) bool = exists k string :: k in m && m[k].Chan == c
+//@ define isInParamChan(m map[string]*InParamPort, c ref) bool = exists k string :: k in m && m[k].Chan == c
 
 //@ func (*BaseProcess).receiveOnInParamPorts(p) (params, paramPortsOpen)
 //@   props C04 C08
@@ -1232,7 +1232,7 @@ package scipipe
 //@   ensures open-iff-every-port-delivered: paramPortsOpen <==> (forall k string :: k in p.inParamPorts ==> old(chanRecvN(p.inParamPorts[k].Chan)) < chanTotal(p.inParamPorts[k].Chan))
 //@   ensures items-in-arrival-order: forall k string :: k in p.inParamPorts && old(chanRecvN(p.inParamPorts[k].Chan)) < chanTotal(p.inParamPorts[k].Chan) ==> k in params && params[k] == chanInAt(p.inParamPorts[k].Chan, old(chanRecvN(p.inParamPorts[k].Chan)))
 //@   ensures only-ports: forall k string :: k in params ==> k in p.inParamPorts
-//@   ensures other-channels-untouched: forall c chan string :: !fresh(c) && !isInParamChan(p.inParamPorts, c) ==> chanRecvN(c) == old(chanRecvN(c)) && chanRecvA(c) == old(chanRecvA(c))
+//@   ensures other-channels-untouched: forall c ref :: !fresh(c) && !isInParamChan(p.inParamPorts, c) ==> chanRecvN(c) == old(chanRecvN(c)) && chanRecvA(c) == old(chanRecvA(c))
 //@   ensures nothing-sent: forall c ref :: !fresh(c) ==> chanSentN(c) == old(chanSentN(c)) && chanClosed(c) == old(chanClosed(c))
 //@   loop 0 invariant nothing-sent: forall c ref :: !fresh(c) ==> chanSentN(c) == old(chanSentN(c)) && chanClosed(c) == old(chanClosed(c))
 //@   loop 0 invariant fresh: fresh(params) && params != nil
@@ -1242,7 +1242,7 @@ package scipipe
 //@   loop 0 invariant open: paramPortsOpen <==> (forall k string :: $visited[k] ==> old(chanRecvN(p.inParamPorts[k].Chan)) < chanTotal(p.inParamPorts[k].Chan))
 //@   loop 0 invariant items: forall k string :: $visited[k] && old(chanRecvN(p.inParamPorts[k].Chan)) < chanTotal(p.inParamPorts[k].Chan) ==> k in params && params[k] == chanInAt(p.inParamPorts[k].Chan, old(chanRecvN(p.inParamPorts[k].Chan)))
 //@   loop 0 invariant only-ports: forall k string :: k in params ==> $visited[k]
-//@   loop 0 invariant others: forall c chan string :: !fresh(c) && !isInParamChan(p.inParamPorts, c) ==> chanRecvN(c) == old(chanRecvN(c)) && chanRecvA(c) == old(chanRecvA(c))
+//@   loop 0 invariant others: forall c ref :: !fresh(c) && !isInParamChan(p.inParamPorts, c) ==> chanRecvN(c) == old(chanRecvN(c)) && chanRecvA(c) == old(chanRecvA(c))
 
 // ---------------------------------------------------------------------------
 // ip.go: creating IPs (C09 invalid output path, C02/C11 audit record of existing files)
